@@ -855,12 +855,37 @@ def rule_r4(chk, prog):
             comp = getattr(comp, '_parent', None)
         src = comp.generators[0].iter if comp is not None else None
         n = expr_owner_node(cfg, e)
-        if not isinstance(src, ast.Name):
+        loop_alts = None
+        if comp is None:
+            # emitted inside an explicit loop over the candidates: one
+            # alternative per iteration path that reaches the emission
+            lp = getattr(e, '_parent', None)
+            while lp is not None and lp is not f and not (
+                    isinstance(lp, ast.For) and isinstance(
+                        lp.target, ast.Name)):
+                lp = getattr(lp, '_parent', None)
+            if isinstance(lp, ast.For) and id(lp) in cfg.node_of:
+                ev = lp.target.id
+                loop_alts = []
+                for pth in loop_body_paths(cfg, lp):
+                    if n in pth.nodes:
+                        k_ = pth.nodes.index(n)
+                        fs = set()
+                        for (t, p_) in facts_before(pth, k_):
+                            e_ = parse_expr(t)
+                            if e_ is not None:
+                                fs.add((canon(e_, ev), p_))
+                                fs.add((t, p_))
+                        inner = admission(cfg.node_of[id(lp)], lp.iter.id) \
+                            if isinstance(lp.iter, ast.Name) else [set()]
+                        loop_alts += [fs | a for a in inner]
+        if loop_alts is None and not isinstance(src, ast.Name):
             raise AnalysisError(
                 f'{m.loc(e)}: candidates of ReplaceByVariable do not come '
                 'from a named list')
         here = set(facts_at(f, e))
-        for alt in admission(n, src.id):
+        for alt in (loop_alts if loop_alts is not None
+                    else admission(n, src.id)):
             nchain += 1
             facts = alt | here
             desc = ' & '.join(sorted(
